@@ -34,7 +34,7 @@ PROPS = {
                 "every 4th run is the SCION half: the real SCIONClient against real runSCIONServer listeners through a relay router, with 1..3 crafted SCION packets per attacked exchange (the genuine response with another source "
                 "ISD-AS or host, another destination ISD-AS or host, source and destination swapped, NTP fields changed, truncated, replays, the reflected request, forged responses from another AS, random bytes), so that the single retry is regularly used up before the packet of interest arrives; "
                 "non-trivial = at least one crafted datagram and two measurements; distinct = distinct event-log hash",
-        "required_probes": ["clean-exchange", "succeeded-under-attack", "measurement-failed", "scion-succeeded-under-attack", "scion-nts", "scion-nts-resealed"],
+        "required_probes": ["clean-exchange", "succeeded-under-attack", "measurement-failed", "scion-succeeded-under-attack", "scion-nts", "scion-nts-resealed", "provenance-checked"],
         "components": {"real": ["core/client IPClient and SCIONClient receive loops", "net/ntp ValidateResponseMetadata/Timestamps", "net/nts DecodePacket/ProcessResponse", "core/server runIPServer, runSCIONServer"],
                        "stub": dict(STUBS_COMMON, **{"kernel UDP": "simnet", "attacker": "scripted injector"})},
         "assumptions": ["'comes from the queried server' is judged on the source address (a reply may come from any port of that address)",
@@ -108,7 +108,7 @@ PROPS = {
                 "with ISD-AS, host and ports exchanged); later runs (every third over SCION) sample first bytes, lengths 0..2048, source ports, network duplicates and missing / nanosecond-form receive and missing / late transmit kernel timestamps at the listeners; every 8th reply is fed back with a forged source; "
                 "non-trivial = at least one datagram answered and one ignored; distinct = distinct event-log hash",
         "exhaustive_part": "first byte x length class x trailer class (17920 cases) enumerated completely against the IP listeners when the batch has at least 187 runs and against the SCION listeners when it has at least 374 (quick tier: 600 runs)",
-        "required_probes": ["answered", "ignored", "nts-answered", "reflection-checked", "answered-over-scion", "mixed-address-families"],
+        "required_probes": ["answered", "ignored", "nts-answered", "reflection-checked", "answered-over-scion", "mixed-address-families", "via-endhost-port"],
         "components": {"real": ["core/server runIPServer, runSCIONServer, handleRequest", "net/ntp DecodePacket, ValidateRequest", "net/nts DecodePacket, ProcessRequest", "net/ntske cookies, Provider"],
                        "stub": dict(STUBS_COMMON, **{"kernel UDP stack": "simnet", "senders": "scripted datagram injector"})},
         "assumptions": ["over SCION the reply's path reversal is C13's clause; here its addressing (previous hop, ISD-AS, host, ports) is checked",
